@@ -100,7 +100,8 @@ def step (st : St) (line : String) : St × String :=
           { ks := [], pid := [], pnano := none, ko := [], pstr := (unhexBytes pstr).getD [], str := (unhexBytes str).getD [],
             ostr := (unhexBytes ostr).getD [] }
         | _ => { ks := [], pid := [], pnano := none, ko := [] }
-      ({ st with uni := x :: st.uni, views := (x.1, x.2, view) :: st.views }, "T ok")
+      ({ st with uni := x :: st.uni, views := (x.1, x.2, view) :: st.views },
+       if more.length != 4 || printedFormsAgree x.2 view.pstr view.ostr then "T ok" else "T printed-form-mismatch")
     | none => (st, "bad-op")
   | ["new", n] =>
     match unhexBytes n with
